@@ -181,6 +181,15 @@ def make (c):
                     a_ = np.polynomial.polynomial.polymul (a_, ta)
                 n_ = max (len (a_), len (b_))
                 loads.append (dict (k = 'lap', a = [float (x) for x in a_] + [0.0] * (n_ - len (a_)), b = [float (x) for x in b_] + [0.0] * (n_ - len (b_)), att = att))
+    # an object without a pulse (a one-segment wire standing alone) among wires that all carry a distributed load: it
+    # owns no pulse, so there is nothing to write for it
+    rp = np.random.default_rng ([c ['seed'], 183, c ['i']])
+    if any (l ['k'] in ('skin', 'ins') and l.get ('tag') is None for l in loads) and rp.random () < 0.5:
+        lam_ = gen.C_MHZ / spec ['f']
+        sl_  = min (np.linalg.norm (np.array (g ['p2']) - np.array (g ['p1'])) / g ['n'] for g in geo if g ['k'] == 'w')
+        z0_  = 3 * lam_
+        geo.append (gen.wire (1, [5 * lam_, 0.0, z0_], [5 * lam_, 0.0, z0_ + sl_], min (g ['r'] for g in geo)))
+        spec ['pulseless'] = True
     # elements of value zero are elements (a load table entry of 0 + 0j, insulation with the permittivity of air)
     rz = np.random.default_rng ([c ['seed'], 182, c ['i']])
     for l in loads:
